@@ -78,5 +78,9 @@ _cond("C15", [("MC_C01", "MC_C15a_quick.cfg"), ("MC_COND", "MC_C15b_quick.cfg"),
       "For every specialised class (diagonal measures/densities/conditionals, identity-mean conditionals, rank-one/linear/constant factors) TLC proves that the class-specific code path modelled in the specification (diagonal inversion, Sherman-Morrison + determinant lemma, covariance reuse, M = I) yields the same function as the general object with the same parameters (Inv_Generalize, Inv_CacheCoherent, Inv_Transform...); the code is bound by replaying every behaviour and comparing with the general-semantics expected values.",
       "all specialised classes x the operations they support (products, integrals, transformations, set_y, information quantities)")
 
+_cond("C20", [("MC_C20", "MC_C20_quick.cfg")],
+      "Truncated moments are specified as values with Phi/phi atoms at rational standardised limits through an antiderivative whose correctness TLC checks as a polynomial identity (certificate), together with additivity over adjacent intervals (cut-point atoms cancel symbolically) and agreement with Isserlis moments for the untruncated interval; every configuration (measure / density base, truncated measure / normalised pdf, finite / one-sided / far-tail limits, scalar / array limits, k = 0..6, call inside / outside / on the boundary, mean, variance) is replayed into the code.",
+      "R in {1,2}; 8 limit patterns; k in 0..6; tolerance as stated by the property (1e-8 of the untruncated |x|^k integral; ratios whose truncated mass is below float64 cdf resolution are counted as skipped)")
+
 NOT_APPLICABLE = {}
 HOOK_COMMITS = []
